@@ -170,7 +170,8 @@ class Ctx:
             print(f"  clause={fs[0]['clause']} sig={json.dumps(fs[0]['sig'], sort_keys=True)} cases={len(fs)}")
         if nviol > 25:
             print(f"  ... {nviol - 25} more distinct violation signatures not written out")
-        if self.replay is None:
+        if self.replay is None and not os.environ.get("VERIF_NO_EVIDENCE"):
+            # (mutant sweeps on scratch copies set VERIF_NO_EVIDENCE: evidence describes /repo only)
             self.write_evidence(nviol, known)
         for n in self.notes:
             print("NOTE " + n)
